@@ -248,7 +248,8 @@ func scenarioC12(x *runner.X) {
 			full, _ := os.ReadFile(set.files[role])
 			var bad []byte
 			bad, desc = c12corrupt(t, r, full)
-			desc = role + " index: " + desc
+			prefetch := t.Bool(0.5) // the server turns prefetching on for indexes opened over http(s)
+			desc = fmt.Sprintf("%s index (prefetch %v): %s", role, prefetch, desc)
 			run("open+lookup", len(bad), func() {
 				rd := &c12ra{b: bad}
 				switch role {
@@ -257,6 +258,7 @@ func scenarioC12(x *runner.X) {
 					if err != nil {
 						return
 					}
+					ix.Prefetch(prefetch)
 					ix.Meta()
 					for _, o := range w.Objects {
 						ix.Get(o.Cid)
@@ -266,6 +268,7 @@ func scenarioC12(x *runner.X) {
 					if err != nil {
 						return
 					}
+					ix.Prefetch(prefetch)
 					for _, b := range w.Blocks {
 						ix.Get(b.Slot)
 					}
@@ -275,6 +278,7 @@ func scenarioC12(x *runner.X) {
 					if err != nil {
 						return
 					}
+					ix.Prefetch(prefetch)
 					for _, tx := range w.Txs {
 						ix.Get(tx.Sig())
 					}
